@@ -208,19 +208,28 @@ Definition start_rule (st : dstate) (s : list leaf) : res dstate :=
   | FNs _ :: _ => Err EInNs
   | fs => Ok (mkD (FRule (s, []) :: fs) (d_root st) (d_lost st))
   end.
-Definition start_atmedia (st : dstate) (a : margs) : dstate :=
-  let r := match d_frames st with
-           | [] => None
-           | f :: _ => match rule_of f with Some s => Some (s, []) | None => None end
-           end in
-  mkD (FMedia a r [] :: d_frames st) (d_root st) (d_lost st).
-Definition start_atrule (st : dstate) (n : bytes) (a : option leaf) : dstate :=
-  let r := match d_frames st with
-           | [] => None
-           | f :: _ => if is_flat_rule n then None
-                       else match rule_of f with Some s => Some (s, []) | None => None end
-           end in
-  mkD (FAt n a r [] :: d_frames st) (d_root st) (d_lost st).
+(* since rsass ac4acd7 start_atmedia / start_atrule fail inside a nested-property destination *)
+Definition start_atmedia (st : dstate) (a : margs) : res dstate :=
+  match d_frames st with
+  | FNs _ :: _ => Err EInNs
+  | fs =>
+    let r := match fs with
+             | [] => None
+             | f :: _ => match rule_of f with Some s => Some (s, []) | None => None end
+             end in
+    Ok (mkD (FMedia a r [] :: fs) (d_root st) (d_lost st))
+  end.
+Definition start_atrule (st : dstate) (n : bytes) (a : option leaf) : res dstate :=
+  match d_frames st with
+  | FNs _ :: _ => Err EInNs
+  | fs =>
+    let r := match fs with
+             | [] => None
+             | f :: _ => if is_flat_rule n then None
+                         else match rule_of f with Some s => Some (s, []) | None => None end
+             end in
+    Ok (mkD (FAt n a r [] :: fs) (d_root st) (d_lost st))
+  end.
 Definition start_nsrule (st : dstate) (n : bytes) : res dstate :=
   match d_frames st with
   | [] => Err EGlobalNs
@@ -325,10 +334,12 @@ Fixpoint eval_item (fuel : nat) (mixins : list (list stmt)) (compressed : bool)
         bind (start_nsrule st0 name) (fun st1 =>
         bind (body cenv ctx b st1) (fun st2 => Ok (close st2))))
     | SMedia q b =>
-        bind (body cenv ctx b (start_atmedia st (MName q))) (fun st2 => Ok (close st2))
+        bind (start_atmedia st (MName q)) (fun st1 =>
+        bind (body cenv ctx b st1) (fun st2 => Ok (close st2)))
     | SAtR name args (Some b) =>
         let ctx' := if bytes_eqb name [107;101;121;102;114;97;109;101;115] then root_ctx else ctx in
-        bind (body cenv ctx' b (start_atrule st name (option_map same_leaf args))) (fun st2 => Ok (close st2))
+        bind (start_atrule st name (option_map same_leaf args)) (fun st1 =>
+        bind (body cenv ctx' b st1) (fun st2 => Ok (close st2)))
     | SAtR name args None =>
         with_frames st (push_item (d_frames st) (d_root st) (IAt name (option_map same_leaf args) None))
     | SAtRoot sels b =>
